@@ -32,12 +32,12 @@ type TrailEnt struct {
 }
 
 type inputRec struct {
-	Fn    string  // IntRange | Bytes | Len | Choose | Bool | ...
-	Name  string
-	Terms []*Term // the symbolic terms (one per byte for Bytes)
-	Conc  uint64  // for concrete-per-path results (Len, Choose)
+	Fn     string // IntRange | Bytes | Len | Choose | Bool | ...
+	Name   string
+	Terms  []*Term // the symbolic terms (one per byte for Bytes)
+	Conc   uint64  // for concrete-per-path results (Len, Choose)
 	IsConc bool
-	W     uint8
+	W      uint8
 }
 
 type knownRegion struct {
@@ -71,55 +71,55 @@ type ReplayInput struct {
 
 // Run is one symbolic execution of a harness along one decision trail.
 type Run struct {
-	eng    *Engine
-	w      *Worker
-	cfg    Config
-	st     *Store
-	sol    *Solver
-	prefix []TrailEnt
-	trail  []TrailEnt
-	pos    int
-	alts   [][]TrailEnt // alternatives discovered on this run
-	pc     []*Term
-	steps  int
-	inputs []inputRec
-	known  []knownRegion
-	viols  []Violation
-	covers map[string]bool
-	asserts map[string]int
-	observes []obsRec
+	eng          *Engine
+	w            *Worker
+	cfg          Config
+	st           *Store
+	sol          *Solver
+	prefix       []TrailEnt
+	trail        []TrailEnt
+	pos          int
+	alts         [][]TrailEnt // alternatives discovered on this run
+	pc           []*Term
+	steps        int
+	inputs       []inputRec
+	known        []knownRegion
+	viols        []Violation
+	covers       map[string]bool
+	asserts      map[string]int
+	observes     []obsRec
 	inconclusive int
-	decCount map[string]int
-	harness string
+	decCount     map[string]int
+	harness      string
 
 	globals  map[*ssa.Global]*value
 	initDone map[*ssa.Package]bool
 
 	// scheduler
-	threads []*thread
-	cur     *thread
-	killCh  chan struct{}
-	doneCh  chan struct{}
-	outcome *abortPath
-	preempt int
-	events  []*envEvent
-	quiesce []value // callbacks
+	threads  []*thread
+	cur      *thread
+	killCh   chan struct{}
+	doneCh   chan struct{}
+	outcome  *abortPath
+	preempt  int
+	events   []*envEvent
+	quiesce  []value // callbacks
 	schedLog []string
-	nextTid int
-	clock   *Term // last time.Now value (monotone)
+	nextTid  int
+	clock    *Term // last time.Now value (monotone)
 	nowCount int
 
-	fs   *fsModel
-	race *raceState
-	uuidN int
-	stubs map[string]value // callee name -> harness function value (stub redirection)
-	splitCache map[*Term][2]*Term
-	unsplit    map[[2]*Term]*Term
-	timerTab   map[*value]*timerState
-	quiesceRan bool
-	noteAssume int
+	fs            *fsModel
+	race          *raceState
+	uuidN         int
+	stubs         map[string]value // callee name -> harness function value (stub redirection)
+	splitCache    map[*Term][2]*Term
+	unsplit       map[[2]*Term]*Term
+	timerTab      map[*value]*timerState
+	quiesceRan    bool
+	noteAssume    int
 	sizeClassUsed int
-	crcApps    []crcApp
+	crcApps       []crcApp
 }
 
 type obsRec struct {
